@@ -147,3 +147,106 @@ fn c08_k_month_pillar_args() {
   assert!(spec::emod(unsafe { REC_STEM } as i64, 10) == spec::emod(spec::five_tigers(ys) + idx as i64, 10), "month stem by the Five-Tigers rule from the year stem");
   kani::cover!(idx == 12, "month_pillar reachable");
 }
+
+// C13: construction accepts exactly the components inside the container. LunarMonth::from_ym (cache + astronomy) is
+// replaced by an arbitrary well-formed month of the requested (year, month) so that the body of LunarDay::new is what is proved.
+static mut REC_DC: usize = 0;
+fn stub_month_from_ym(y: isize, m: isize) -> LunarMonth {
+  let dc: usize = kani::any(); let idx: usize = kani::any(); let first: i64 = kani::any();
+  kani::assume(dc >= 29 && dc <= 30 && idx <= 12 && first >= 1721000 && first <= 5374000);
+  unsafe { REC_DC = dc; }
+  mk_month(y, m, dc, idx, first)
+}
+#[kani::proof]
+#[kani::stub(alloc::fmt::format, stub_format)]
+#[kani::stub(LunarMonth::from_ym, stub_month_from_ym)]
+fn c13_k_lunar_day_accept() {
+  let y: isize = kani::any(); let m: isize = kani::any(); let d: usize = kani::any();
+  kani::assume(y >= -1 && y <= 9999 && m != 0 && m >= -12 && m <= 12);
+  let r = LunarDay::new(y, m, d);
+  let dc = unsafe { REC_DC };
+  assert!(r.is_ok() == (d >= 1 && d <= dc), "a lunar day is accepted exactly when 1 <= day <= day count of its month");
+  if let Ok(ref v) = r {
+    assert!(v.get_day() == d && v.get_year() == y && v.get_lunar_month().get_month_with_leap() == m, "components are stored as given");
+  }
+  core::mem::forget(r); // harness side only: the drop glue of Result<LunarDay, String> is what CBMC cannot finish
+  kani::cover!(d == 30 && dc == 29, "lunar_day_accept reachable (day 30 of a short month refused)");
+}
+
+static mut REC_YMD: (isize, isize, usize) = (0, 0, 0);
+fn stub_day_from_ymd(y: isize, m: isize, d: usize) -> LunarDay {
+  unsafe { REC_YMD = (y, m, d); }
+  LunarDay { month: mk_month(y, m, 30, 0, 2400000), day: d, solar_day: RefCell::new(None), sixty_cycle_day: RefCell::new(None) }
+}
+#[kani::proof]
+#[kani::stub(alloc::fmt::format, stub_format)]
+#[kani::stub(LunarDay::from_ymd, stub_day_from_ymd)]
+fn c13_k_lunar_hour_accept() {
+  let y: isize = kani::any(); let m: isize = kani::any(); let d: usize = kani::any();
+  let h: usize = kani::any(); let mi: usize = kani::any(); let s: usize = kani::any();
+  kani::assume(y >= -1 && y <= 9999 && m != 0 && m >= -12 && m <= 12 && d >= 1 && d <= 30);
+  let r = LunarHour::new(y, m, d, h, mi, s);
+  assert!(r.is_ok() == (h <= 23 && mi <= 59 && s <= 59), "a lunar hour is accepted exactly when hour <= 23, minute <= 59, second <= 59");
+  if let Ok(ref v) = r {
+    assert!(v.get_hour() == h && v.get_minute() == mi && v.get_second() == s && unsafe { REC_YMD } == (y, m, d), "components are stored as given; the day is built from the same (year, month, day)");
+  }
+  core::mem::forget(r);
+  kani::cover!(h == 23 && mi == 59 && s == 59, "lunar_hour_accept reachable");
+}
+
+// C13: LunarDay::get_hours asks for exactly the 13 hour slots 0:00, 1:00, 3:00, ..., 23:00 of its own (year, month, day)
+static mut REC_HOURS: [usize; 16] = [99; 16];
+static mut REC_HN: usize = 0;
+static mut REC_HBAD: bool = false;
+fn stub_hour_from_ymd_hms(y: isize, m: isize, d: usize, h: usize, mi: usize, s: usize) -> LunarHour {
+  unsafe {
+    if REC_HN < 16 { REC_HOURS[REC_HN] = h; }
+    REC_HN += 1;
+    if (y, m, d) != REC_YMD || mi != 0 || s != 0 { REC_HBAD = true; }
+  }
+  LunarHour { day: LunarDay { month: mk_month(y, m, 30, 0, 2400000), day: d, solar_day: RefCell::new(None), sixty_cycle_day: RefCell::new(None) }, hour: h, minute: mi, second: s, solar_time: RefCell::new(None), sixty_cycle_hour: RefCell::new(None) }
+}
+#[kani::proof]
+#[kani::unwind(15)]
+#[kani::stub(alloc::fmt::format, stub_format)]
+#[kani::stub(LunarHour::from_ymd_hms, stub_hour_from_ymd_hms)]
+fn c13_k_lunar_day_hours() {
+  let d = any_lunar_day();
+  unsafe { REC_YMD = (d.get_year(), d.get_month(), d.get_day()); }
+  let l = d.get_hours();
+  let want: [usize; 13] = [0, 1, 3, 5, 7, 9, 11, 13, 15, 17, 19, 21, 23];
+  assert!(l.len() == 13 && unsafe { REC_HN } == 13, "13 hour slots per lunar day");
+  let mut i = 0;
+  while i < 13 {
+    assert!(unsafe { REC_HOURS[i] } == want[i] && l[i].get_hour() == want[i], "slots are 0:00, 1:00, 3:00, ..., 23:00 in order");
+    i += 1;
+  }
+  core::mem::forget(l);
+  assert!(!unsafe { REC_HBAD }, "every slot belongs to this day (same year, month, day; minute and second 0)");
+  kani::cover!(d.get_day() == 30, "lunar_day_hours reachable");
+}
+
+// C11/C09: LunarHour::next(n) carries whole days exactly: hour + 2n == 24 * days + hour', 0 <= hour' < 24, where `days` is what
+// it hands to LunarDay::next and hour' what it hands to the constructor (both replaced by recording stubs).
+static mut REC_DAYS: isize = 0;
+static mut REC_H: usize = 99;
+fn stub_lunar_day_next(d: &LunarDay, n: isize) -> LunarDay { unsafe { REC_DAYS = n; } d.clone() }
+fn stub_hour_ctor(y: isize, m: isize, d: usize, h: usize, mi: usize, s: usize) -> LunarHour {
+  unsafe { REC_H = h; }
+  LunarHour { day: LunarDay { month: mk_month(y, m, 30, 0, 2400000), day: d, solar_day: RefCell::new(None), sixty_cycle_day: RefCell::new(None) }, hour: h, minute: mi, second: s, solar_time: RefCell::new(None), sixty_cycle_hour: RefCell::new(None) }
+}
+#[kani::proof]
+#[kani::stub(alloc::fmt::format, stub_format)]
+#[kani::stub(<LunarDay as Tyme>::next, stub_lunar_day_next)]
+#[kani::stub(LunarHour::from_ymd_hms, stub_hour_ctor)]
+fn c11_k_lunar_hour_carry() {
+  let h: usize = kani::any(); let mi: usize = kani::any(); let s: usize = kani::any(); let n: isize = kani::any();
+  kani::assume(h < 24 && mi < 60 && s < 60 && n != 0 && n > -(1isize << 40) && n < (1isize << 40));
+  let lh = LunarHour { day: any_lunar_day(), hour: h, minute: mi, second: s, solar_time: RefCell::new(None), sixty_cycle_hour: RefCell::new(None) };
+  let r = lh.next(n);
+  let (days, h2) = unsafe { (REC_DAYS as i128, REC_H as i128) };
+  assert!(h2 < 24 && (h as i128) + 2 * (n as i128) == 24 * days + h2, "hour + 2n == 24 * (days carried) + new hour, 0 <= new hour < 24");
+  assert!(r.get_minute() == mi && r.get_second() == s, "minute and second are kept");
+  core::mem::forget(r); core::mem::forget(lh);
+  kani::cover!(n == -13 && h == 1, "lunar_hour_carry reachable (backward across midnight)");
+}
